@@ -22,9 +22,7 @@ RULE = ("case = (method/bc in {trapz, simpson, cspline x (default, not-a-knot, n
         "are executed on (zero, every unit vector, one dense vector) laid out over the other axes "
         "(sizes 2, 3, 2), on a non-contiguous (transposed) copy of the first block, and on inputs whose length along dim is nx-1 and "
         "nx+1 and 1 (must raise); distinct = distinct rounded error records; trivial when construction raised")
-RULE_ADDED = ('Added later: singleton axes, regrid (grid tensor updated in place between two constructions), prior '
-              '(the same SQuad object used along other dims of tensors of other ranks before the judged calls), cal'
-              'l-order plane in fresh interpreters.')
+RULE_ADDED = 'Added later: singleton axes, regrid (grid tensor updated in place between two constructions), prior (the same SQuad object used along other dims of tensors of other ranks before the judged calls), call-order plane in fresh interpreters. Round 6: grids in other units (exact scaling by 2^-30 / 2^20), nearly equidistant grid, large plane (300x128, 70x256, 4200x33 rows x samples: all rows at once == rows in blocks == integrate).'
 ASSUMPTIONS = [
     "x is 1-D, strictly increasing (documented); y[0] == y[-1] for the periodic boundary condition",
     "simpson: the running integral at even positions is the sum of the integrals of the parabolas through "
